@@ -89,7 +89,7 @@ impl Prop for C03 {
     }
     fn budget(&self, tier: Tier) -> Budget {
         match tier {
-            Tier::Quick => Budget { cases: 256, max_tape: 512 },
+            Tier::Quick => Budget { cases: 384, max_tape: 512 },
             Tier::Thorough => Budget { cases: 8_000, max_tape: 768 },
         }
     }
@@ -128,6 +128,11 @@ impl Prop for C03 {
         };
         if depth > 6 {
             rec.exclude("bad depth > 6");
+            return Ok(());
+        }
+        // witnesses that consist of the initial state alone are the most common shape: keep half
+        if depth == 0 && seed0 % 2 != 0 {
+            rec.exclude("bad in the initial state (1 of 2 sub-sampled away)");
             return Ok(());
         }
         let profile_idx = (cfg_bytes[1] % 4) as usize;
